@@ -3,12 +3,12 @@ package server
 import (
 	"context"
 	"sort"
+	"unicode/utf8"
 
 	"go.lsp.dev/protocol"
 
 	"github.com/juev/hledger-lsp/internal/ast"
 	"github.com/juev/hledger-lsp/internal/include"
-	"github.com/juev/hledger-lsp/internal/lsputil"
 	"github.com/juev/hledger-lsp/internal/parser"
 )
 
@@ -20,14 +20,14 @@ func (s *Server) References(ctx context.Context, params *protocol.ReferenceParam
 
 	journal, _ := parser.Parse(doc)
 
-	target := findDefinitionTarget(journal, params.Position)
+	target := findDefinitionTarget(journal, newColumnMapper(doc), params.Position)
 	if target == nil || target.context == DefContextUnknown {
 		return nil, nil
 	}
 
-	resolved, primaryPath := s.resolvedWithPrimaryPath(params.TextDocument.URI)
+	resolved, primaryPath, mappers := s.resolvedWithPrimaryPath(params.TextDocument.URI, doc)
 
-	return findReferences(target, resolved, primaryPath, journal, params.Context.IncludeDeclaration), nil
+	return findReferences(target, resolved, primaryPath, journal, params.Context.IncludeDeclaration, mappers), nil
 }
 
 // nameRange is the range of a symbol's lexeme given where it starts. The syntax tree records no
@@ -36,7 +36,7 @@ func (s *Server) References(ctx context.Context, params *protocol.ReferenceParam
 func nameRange(start ast.Position, name string) ast.Range {
 	return ast.Range{
 		Start: start,
-		End:   ast.Position{Line: start.Line, Column: start.Column + lsputil.UTF16Len(name)},
+		End:   ast.Position{Line: start.Line, Column: start.Column + utf8.RuneCountInString(name)},
 	}
 }
 
@@ -63,26 +63,27 @@ func postingCommodities(p *ast.Posting) []*ast.Commodity {
 	return result
 }
 
-func findReferences(target *definitionTarget, resolved *include.ResolvedJournal, currentPath string, currentJournal *ast.Journal, includeDeclaration bool) []protocol.Location {
+func findReferences(target *definitionTarget, resolved *include.ResolvedJournal, currentPath string, currentJournal *ast.Journal, includeDeclaration bool, mappers *fileMappers) []protocol.Location {
 	switch target.context {
 	case DefContextAccount:
-		return findAccountReferences(target.name, resolved, currentPath, currentJournal, includeDeclaration)
+		return findAccountReferences(target.name, resolved, currentPath, currentJournal, includeDeclaration, mappers)
 	case DefContextCommodity:
-		return findCommodityReferences(target.name, resolved, currentPath, currentJournal, includeDeclaration)
+		return findCommodityReferences(target.name, resolved, currentPath, currentJournal, includeDeclaration, mappers)
 	case DefContextPayee:
 		// Payees don't have declarations (no directive), so includeDeclaration is ignored
-		return findPayeeReferences(target.name, resolved, currentPath, currentJournal)
+		return findPayeeReferences(target.name, resolved, currentPath, currentJournal, mappers)
 	default:
 		return nil
 	}
 }
 
-func findAccountReferences(name string, resolved *include.ResolvedJournal, currentPath string, currentJournal *ast.Journal, includeDeclaration bool) []protocol.Location {
+func findAccountReferences(name string, resolved *include.ResolvedJournal, currentPath string, currentJournal *ast.Journal, includeDeclaration bool, mappers *fileMappers) []protocol.Location {
 	journals := allJournalsWithPaths(resolved, currentPath, currentJournal)
 	var locations []protocol.Location
 
 	for _, filePath := range sortedJournalPaths(journals) {
 		journal := journals[filePath]
+		mapper := mappers.get(filePath)
 
 		if includeDeclaration {
 			for _, dir := range journal.Directives {
@@ -90,7 +91,7 @@ func findAccountReferences(name string, resolved *include.ResolvedJournal, curre
 					if ad.Account.Name == name {
 						locations = append(locations, protocol.Location{
 							URI:   pathToURI(filePath),
-							Range: *astRangeToProtocol(accountNameRange(&ad.Account)),
+							Range: *mapper.toProtocol(accountNameRange(&ad.Account)),
 						})
 					}
 				}
@@ -104,7 +105,7 @@ func findAccountReferences(name string, resolved *include.ResolvedJournal, curre
 				if p.Account.Name == name {
 					locations = append(locations, protocol.Location{
 						URI:   pathToURI(filePath),
-						Range: *astRangeToProtocol(accountNameRange(&p.Account)),
+						Range: *mapper.toProtocol(accountNameRange(&p.Account)),
 					})
 				}
 			}
@@ -114,12 +115,13 @@ func findAccountReferences(name string, resolved *include.ResolvedJournal, curre
 	return sortAndDedup(locations)
 }
 
-func findCommodityReferences(symbol string, resolved *include.ResolvedJournal, currentPath string, currentJournal *ast.Journal, includeDeclaration bool) []protocol.Location {
+func findCommodityReferences(symbol string, resolved *include.ResolvedJournal, currentPath string, currentJournal *ast.Journal, includeDeclaration bool, mappers *fileMappers) []protocol.Location {
 	journals := allJournalsWithPaths(resolved, currentPath, currentJournal)
 	var locations []protocol.Location
 
 	for _, filePath := range sortedJournalPaths(journals) {
 		journal := journals[filePath]
+		mapper := mappers.get(filePath)
 
 		for _, dir := range journal.Directives {
 			switch d := dir.(type) {
@@ -127,20 +129,20 @@ func findCommodityReferences(symbol string, resolved *include.ResolvedJournal, c
 				if includeDeclaration && d.Commodity.Symbol == symbol {
 					locations = append(locations, protocol.Location{
 						URI:   pathToURI(filePath),
-						Range: *astRangeToProtocol(directiveCommodityRange(&d.Commodity)),
+						Range: *mapper.toProtocol(directiveCommodityRange(&d.Commodity)),
 					})
 				}
 			case ast.PriceDirective:
 				if d.Commodity.Symbol == symbol {
 					locations = append(locations, protocol.Location{
 						URI:   pathToURI(filePath),
-						Range: *astRangeToProtocol(directiveCommodityRange(&d.Commodity)),
+						Range: *mapper.toProtocol(directiveCommodityRange(&d.Commodity)),
 					})
 				}
 				if d.Price.Commodity.Symbol == symbol {
 					locations = append(locations, protocol.Location{
 						URI:   pathToURI(filePath),
-						Range: *astRangeToProtocol(d.Price.Commodity.Range),
+						Range: *mapper.toProtocol(d.Price.Commodity.Range),
 					})
 				}
 			}
@@ -153,7 +155,7 @@ func findCommodityReferences(symbol string, resolved *include.ResolvedJournal, c
 					if c.Symbol == symbol {
 						locations = append(locations, protocol.Location{
 							URI:   pathToURI(filePath),
-							Range: *astRangeToProtocol(c.Range),
+							Range: *mapper.toProtocol(c.Range),
 						})
 					}
 				}
@@ -164,12 +166,13 @@ func findCommodityReferences(symbol string, resolved *include.ResolvedJournal, c
 	return sortAndDedup(locations)
 }
 
-func findPayeeReferences(payee string, resolved *include.ResolvedJournal, currentPath string, currentJournal *ast.Journal) []protocol.Location {
+func findPayeeReferences(payee string, resolved *include.ResolvedJournal, currentPath string, currentJournal *ast.Journal, mappers *fileMappers) []protocol.Location {
 	journals := allJournalsWithPaths(resolved, currentPath, currentJournal)
 	var locations []protocol.Location
 
 	for _, filePath := range sortedJournalPaths(journals) {
 		journal := journals[filePath]
+		mapper := mappers.get(filePath)
 
 		for i := range journal.Transactions {
 			tx := &journal.Transactions[i]
@@ -177,7 +180,7 @@ func findPayeeReferences(payee string, resolved *include.ResolvedJournal, curren
 			if txPayee == payee {
 				locations = append(locations, protocol.Location{
 					URI:   pathToURI(filePath),
-					Range: *astRangeToProtocol(estimatePayeeRange(tx, payee)),
+					Range: *mapper.toProtocol(estimatePayeeRange(tx, payee)),
 				})
 			}
 		}
